@@ -37,4 +37,10 @@ META = {
   text="Generated search over reorg histories (depth, replacement length, repeated/nested, mid-step at chosen RPC calls, shared client caches, batch sizes > 1) with the final table and every retained position compared with the canonical chain, plus a frame invariant on commit records for blocks below the fork. Bounded convergence: running out of settle budget while still progressing is inconclusive, never a violation.",
   note="Trusted: fakepg, sim node, projection model. Liveness ('once the source settles') is checked as convergence within a step budget proportional to chain length.",
  ),
+ "C06": dict(
+  design_ref="DESIGN.md §4, §5 C06",
+  technique="rapid model-based state machine over (start, stop, head, batch) with restarts; range/ completion invariants on commit records + projection equality",
+  text="Generated search over start/stop placements relative to a growing head, batch sizes straddling the stop, and restarts; every commit is checked against the configured range, completion is checked against the cursor model, and the table against the projection of the range.",
+  note="Trusted: fakepg, sim node, projection model. 'Head at first contact' is read from the simulated node's request log.",
+ ),
 }
